@@ -1,5 +1,5 @@
 CONFIG = dict(
-    coqfiles=["Props/C04.v", "Props/C04B.v", "Props/C04P.v", "Props/C04A.v", "Props/C07D.v"],
+    coqfiles=["Props/C04.v", "Props/C04B.v", "Props/C04P.v", "Props/C04A.v", "Props/C07D.v", "Props/C04W.v"],
     n_quick=1500, n_thorough=60000, workers_quick=8,
     sub=["C04P", "C04A", "C04B", "C04D"],
     rule="random store geometries (block size 16-64, sector 1/4/16, old 0-3, current 0-3, new 1-3, immutable and mutable growth, in-memory or block-device allocator with 1-3 spare blocks, "
